@@ -418,7 +418,7 @@ func ruleDecoderEscape(r *Run, p *Prog) {
 		var text ssa.Value
 		eachInstr(f, func(b *ssa.BasicBlock, i int, in ssa.Instruction) {
 			if c, ok := in.(*ssa.Call); ok {
-				if sc := staticCallee(&c.Call); sc != nil && sc.Name() == "readNBytes" {
+				if sc := staticCallee(&c.Call); sc != nil && canonFn(sc) == "readNBytes" {
 					text = c
 				}
 			}
